@@ -9,7 +9,7 @@ func init() {
 // c19Doc: documents that evaluation has something to do with.
 func c19Doc(i int, symbolic bool) any {
 	var c any = "tok"
-	if vTier() > 0 || symbolic {
+	if symbolic {
 		c = ndScalarNN()
 	}
 	switch ndChoice(11) {
